@@ -27,13 +27,32 @@ def gens(prop):
     return fs
 
 
-def make_gen(prop, only=None):
+# neighbouring properties whose workloads also exercise this property's code: a deterministic sample (every k-th
+# case of their quick generators) is appended, so that a change manifesting only through the neighbour's usage
+# pattern (chunking, reset-before-result, …) is seen by this check too
+ALSO = {
+    "C01": {"C02": 50}, "C02": {"C01": 10}, "C03": {"C04": 4}, "C04": {"C03": 4},
+    "C05": {"C09": 20}, "C06": {"C07": 10}, "C07": {"C06": 10},
+    "C08": {"C09": 4}, "C09": {"C08": 3, "C05": 10}, "C10": {"C09": 20, "C08": 5},
+    "C12": {"C15": 20}, "C13": {"C14": 5, "C15": 30}, "C14": {"C13": 3, "C15": 30}, "C15": {"C12": 10, "C13": 5, "C14": 5},
+}
+
+
+def make_gen(prop, only=None, also=True):
     def gen(tier, rng):
         for name, f in gens(prop):
             if only and name not in only:
                 continue
             for line, kind in f(tier, rng):
                 yield (line, f"{name}:{kind}")
+        if also:
+            for other, k in ALSO.get(prop, {}).items():
+                i = 0
+                for name, f in gens(other):
+                    for line, kind in f("quick", rng):
+                        if i % k == 0:
+                            yield (line, f"{other}/{name}:{kind}")
+                        i += 1
     return gen
 
 
